@@ -105,29 +105,11 @@ where
         let service = self.service.clone();
         Box::pin(async move {
             let offset = &app_share_data.timezone_offset;
-            let token = if enable_auth && is_check_path {
-                if let Some(token) = header_token(request.headers()) {
-                    token
-                } else if let Ok(info) =
-                    serde_urlencoded::from_str::<AccessInfo>(request.query_string())
-                {
-                    Arc::new(info.access_token.to_string())
-                } else {
-                    peek_body_token(&mut request).await
-                }
-            } else {
-                EMPTY_ARC_STRING.clone()
-            };
+            // a wrong, expired or empty token counts as no token: every carrier is tried in turn
+            // (Authorization header, accessToken header, query, form) until one holds a login token
             let pass = if !enable_auth || !is_check_path {
                 true
-            } else if token.is_empty() {
-                false
-            } else if let Ok(Some(session)) = get_user_session(
-                &app_share_data,
-                CacheKey::new(CacheType::ApiTokenSession, token.clone()),
-            )
-            .await
-            {
+            } else if let Some(session) = find_user_session(&app_share_data, &mut request).await {
                 request.extensions_mut().insert(session);
                 true
             } else {
@@ -185,6 +167,58 @@ fn header_token(headers: &actix_web::http::header::HeaderMap) -> Option<Arc<Stri
             .get(ACCESS_TOKEN_HEADER)
             .map(|value| Arc::new(value.to_str().unwrap_or_default().to_owned()))
     }
+}
+
+/// every token the headers carry, in the order of priority
+fn header_tokens(headers: &actix_web::http::header::HeaderMap) -> Vec<Arc<String>> {
+    let mut tokens = Vec::with_capacity(2);
+    if let Some(token) = header_token(headers) {
+        tokens.push(token);
+    }
+    if headers.contains_key(AUTHORIZATION_HEADER) {
+        // header_token has only looked at Authorization
+        if let Some(value) = headers.get(ACCESS_TOKEN_HEADER) {
+            tokens.push(Arc::new(value.to_str().unwrap_or_default().to_owned()));
+        }
+    }
+    tokens
+}
+
+async fn find_user_session(
+    app_share_data: &Arc<AppShareData>,
+    request: &mut ServiceRequest,
+) -> Option<Arc<TokenSession>> {
+    let mut tokens = header_tokens(request.headers());
+    if let Ok(info) = serde_urlencoded::from_str::<AccessInfo>(request.query_string()) {
+        tokens.push(Arc::new(info.access_token.to_string()));
+    }
+    let mut checked: Vec<Arc<String>> = Vec::with_capacity(tokens.len() + 1);
+    for token in tokens {
+        if token.is_empty() || checked.contains(&token) {
+            continue;
+        }
+        if let Ok(Some(session)) = get_user_session(
+            app_share_data,
+            CacheKey::new(CacheType::ApiTokenSession, token.clone()),
+        )
+        .await
+        {
+            return Some(session);
+        }
+        checked.push(token);
+    }
+    // the body is only read when nothing before it was usable
+    let token = peek_body_token(request).await;
+    if token.is_empty() || checked.contains(&token) {
+        return None;
+    }
+    get_user_session(
+        app_share_data,
+        CacheKey::new(CacheType::ApiTokenSession, token),
+    )
+    .await
+    .ok()
+    .flatten()
 }
 
 #[derive(Serialize, Deserialize)]
